@@ -7,7 +7,13 @@ Markdown rendering itself (mistune) is outside the model.
 -/
 namespace Pydjinni.Front
 
-def isPyWs (c : Char) : Bool := c == ' ' || c == '\t' || c == '\n' || c == '\r' || c == '\x0b' || c == '\x0c'
+/-- Python `str.isspace()` (what `str.strip()` removes): ASCII white space, the information separators, NEL, NBSP and
+    the Unicode space / line / paragraph separators -/
+def isPyWs (c : Char) : Bool :=
+  c == ' ' || c == '\t' || c == '\n' || c == '\r' || c == '\x0b' || c == '\x0c'
+  || (0x1c ≤ c.toNat && c.toNat ≤ 0x1f) || c.toNat == 0x85 || c.toNat == 0xa0 || c.toNat == 0x1680
+  || (0x2000 ≤ c.toNat && c.toNat ≤ 0x200a) || c.toNat == 0x2028 || c.toNat == 0x2029 || c.toNat == 0x202f
+  || c.toNat == 0x205f || c.toNat == 0x3000
 
 def stripL : List Char → List Char
   | [] => []
